@@ -146,6 +146,29 @@ let () =
           List.iter (fun (i, v) -> arr.(int_of_z i) <- bits_tok v) wr;
           let t = "L:" ^ String.concat "," (Array.to_list arr) in
           Printf.printf "M %s %s\nS %s %s\n" id t id t
+        end else if kind = "from" then begin
+          (match String.split_on_char ';' arg with
+           | [ctor; sk; txt] ->
+             let t = text_of txt orc in
+             let strk = (sk.[0] = 's') in
+             let source = if strk then Some (SStr (mk_string t))
+                          else (match build rnd64 (PVals (t, O)) with Some s -> Some s | None -> None) in
+             (match source with
+              | None -> Printf.printf "M %s X\nS %s X\n" id id
+              | Some s0 ->
+                let (d, s1) = match ctor.[0] with
+                  | 'l' -> lin_of_iter rnd64 s0 | 'r' -> range_of_iter rnd64 s0 | _ -> fac_of_iter rnd64 s0 in
+                let src = match d with Some d -> build rnd64 d | None -> None in
+                let (v, _) = it_value rnd64 s1 in
+                let u = "U:" ^ (match v with
+                  | VNone -> "N" | VErr c -> "E" ^ zs c | VNum (_, x) -> opt_dbl x | _ -> "?") in
+                let ops = parse_ops ops in
+                let c0 = if src = None then "C:0" else "C:1" in
+                let mo = mrun rnd64 (src, None) ops in
+                let so = srun rnd64 ((match src with Some s -> Some (abs0 s) | None -> None), None) ops in
+                Printf.printf "M %s %s\n" id (String.concat " " (c0 :: u :: List.map (show_m false) mo));
+                Printf.printf "S %s %s\n" id (String.concat " " (c0 :: "*" :: List.map (show_s None) so)))
+           | _ -> failwith "arg")
         end else begin
           let split2 s = match String.split_on_char ';' s with [a; b] -> (a, b) | _ -> failwith "arg" in
           let desc = match kind with
